@@ -351,6 +351,29 @@ struct StoreSession : public vw::Session {
              " nA=" + std::to_string(I.tree.getBlocks().size()) + " nV=" + std::to_string(I.tree.vbk().getBlocks().size()) +
              " nB=" + std::to_string(I.tree.btc().getBlocks().size());
     }
+    if (c == "mpsubmit") {
+      // mpsubmit ctx=v1,v2 atvs=t1 vtbs=w1 : hand payloads to the instance's mempool
+      std::string r;
+      for (size_t i = 1; i < t.size(); i++) {
+        for (auto& x : vw::csv(t[i])) {
+          ValidationState st;
+          bool ok = false;
+          if (t[i].rfind("ctx=", 0) == 0 && reg->vbk.count(x)) ok = I.mempool->submit<VbkBlock>(reg->vbk.at(x), true, st).isAccepted();
+          if (t[i].rfind("atvs=", 0) == 0 && reg->atv.count(x)) ok = I.mempool->submit<ATV>(reg->atv.at(x), true, st).isAccepted();
+          if (t[i].rfind("vtbs=", 0) == 0 && reg->vtb.count(x)) ok = I.mempool->submit<VTB>(reg->vtb.at(x), true, st).isAccepted();
+          r += std::string(r.empty() ? "" : " ") + x + (ok ? ":acc" : ":rej");
+        }
+      }
+      return r.empty() ? "none" : r;
+    }
+    if (c == "genpop") {
+      // generatePopData(); reports the final block before/after (F10: the temporary mempool block)
+      auto before = altFinalId(I);
+      auto tipb = I.tip();
+      PopData pd = I.mempool->generatePopData();
+      return "ctx=" + std::to_string(pd.context.size()) + " vtbs=" + std::to_string(pd.vtbs.size()) + " atvs=" +
+             std::to_string(pd.atvs.size()) + " final " + before + " -> " + altFinalId(I) + " tip " + tipb + " -> " + I.tip();
+    }
     if (c == "pair") {
       std::string fname;
       for (auto& kv : inst) if (kv.second.get() == &I) fname = kv.first;
